@@ -40,9 +40,9 @@ ASSUMPTIONS = [
 ]
 FLOORS = {"quick": {"steps_compared": 2500, "digests_compared": 2500,
                     "mutations": 300, "import_steps": 200},
-          "thorough": {"steps_compared": 120000, "digests_compared": 150000,
-                       "mutations": 20000, "import_steps": 15000}}
-N_SEQ = {"quick": 2560, "thorough": 48000}
+          "thorough": {"steps_compared": 400000, "digests_compared": 500000,
+                       "mutations": 200000, "import_steps": 150000}}
+N_SEQ = {"quick": 2560, "thorough": 150000}
 KINDS = ["valid", "valid", "syntax", "matching", "conversion", "sectiondt",
          "import", "import", "override", "mutate", "mutate"]
 
